@@ -202,12 +202,16 @@ SA(o, s) == [op |-> o, s |-> s]
 ScriptTwo == <<SA("create", 1), SA("create", 2), SA("define", 1), SA("define", 2), SA("parse", 1), SA("parse", 2), SA("parse", 1),
                SA("free", 1), SA("parse", 2)>>
 ScriptOne == <<SA("create", 1), SA("define", 1), SA("parse", 1), SA("define", 1), SA("parse", 1), SA("parse", 1)>>
+SF(w) == [op |-> "set", s |-> 1, which |-> w]
+(* one object: every combination of the three result-selecting flags, a parse, every flag read back through its setter, another parse *)
+ScriptFlags == <<SA("create", 1), SF("one"), SF("cost"), SF("rec"), SA("define", 1), SA("parse", 1), SF("one"), SF("cost"), SF("rec"), SA("parse", 1)>>
 ScriptStep(script) ==
   LET i == Len(hist) + 1 IN
   /\ i <= Len(script)
   /\ LET e == script[i] IN
        \/ e.op = "create" /\ Create(e.s)
        \/ e.op = "free" /\ Free(e.s)
+       \/ e.op = "set" /\ \E v \in {0, 1} : SetFlag(e.s, e.which, v)
        \/ e.op = "define" /\ \E d \in ScriptDefs : Define(e.s, d, FALSE, FALSE)
        \/ e.op = "parse" /\ \E w \in ScriptInputs : Parse(e.s, w, "ff")
 ScriptFinish(script) ==
@@ -217,6 +221,7 @@ ScriptFinish(script) ==
   /\ UNCHANGED <<obj, faults>>
 SpecTwo == Init /\ [][ScriptStep(ScriptTwo) \/ ScriptFinish(ScriptTwo)]_<<obj, hist, faults>>
 SpecOne == Init /\ [][ScriptStep(ScriptOne) \/ ScriptFinish(ScriptOne)]_<<obj, hist, faults>>
+SpecFlags == Init /\ [][ScriptStep(ScriptFlags) \/ ScriptFinish(ScriptFlags)]_<<obj, hist, faults>>
 
 (* ---------- invariants of the machine ---------- *)
 TypeOK == \A s \in Slots : obj[s].life \in {"dead", "undef", "ok", "faulted"} /\ obj[s].la \in 0..2
